@@ -151,7 +151,37 @@ fn transparent_script(rng: &mut Rng, max_len: usize) -> Vec<Act> {
 
 fn gen_stage(rng: &mut Rng, corpus: &Corpus, second: bool) -> Stage {
     // texts
-    let (rule_v, data_v): (Value, Value) = match rng.weighted(&[35, 35, 8, 12, 10]) {
+    let (rule_v, data_v): (Value, Value) = match rng.weighted(&[35, 35, 8, 12, 10, 4, 3]) {
+        5 => {
+            // deep data walked / stringified by a shallow rule
+            let lv = rng.range(40, 122);
+            let (d, path) = gen::deep_data(rng, lv);
+            let r = match rng.below(5) {
+                0 => json!({"var": path}),
+                1 => json!({"cat": [{"var": ""}, "x"]}),
+                2 => json!({"var": ""}),
+                3 => json!({"==": [{"var": ""}, {"var": ""}]}),
+                _ => json!({"log": {"var": ""}}),
+            };
+            (r, d)
+        }
+        6 => {
+            // large documents: bigger than any plausible internal buffer
+            let n = *rng.pick(&[9_000usize, 20_000, 70_000, 140_000]);
+            let d = if rng.chance(1, 2) {
+                Value::Array((0..n / 6).map(|i| json!((i as i64 * 7919) % 100_000)).collect())
+            } else {
+                let unit = *rng.pick(&["abcdefghij", "日本語テキスト", "0123456789"]);
+                Value::String(unit.repeat(n / unit.len()))
+            };
+            let r = match rng.below(4) {
+                0 => json!({"var": ""}),
+                1 => json!({"reduce": [{"var": ""}, {"+": [{"var": "current"}, {"var": "accumulator"}]}, 0]}),
+                2 => json!({"cat": [{"var": ""}, "!"]}),
+                _ => json!({"in": ["zzz", {"var": ""}]}),
+            };
+            (r, d)
+        }
         0 => {
             let (r, d) = rng.pick(&corpus.cases);
             (serde_json::from_str(r).unwrap(), serde_json::from_str(d).unwrap())
@@ -199,7 +229,8 @@ fn gen_stage(rng: &mut Rng, corpus: &Corpus, second: bool) -> Stage {
     if !argv_safe(rule_text.as_bytes()) {
         rule_text = rule_text.replace('\0', " ");
     }
-    if form == Form::Arg && (!argv_safe(&data_text) || data_text == b"-") {
+    // a single argv string is limited to 128 KiB by the kernel
+    if form == Form::Arg && (!argv_safe(&data_text) || data_text == b"-" || data_text.len() > 100_000) {
         form = Form::StdinDash;
     }
     // A text beginning with '-' is handed to the positional arguments (a JSON text can only begin
